@@ -360,6 +360,11 @@ class Simulator(EventProducer, SimulatorInterface, Generic[TIME]):
         change the bound of a run that is in progress."""
         if self.is_starting_or_running():
             raise DSOLError("cannot start a running simulator")
+        if (self._run_state == RunState.STOPPING 
+                and threading.current_thread() is self.__worker):
+            # called by an event or a listener of the run that is stopping:
+            # the worker thread cannot wake up itself, the start would be lost
+            raise DSOLError("cannot start from within a run that is stopping")
         self._await_stopped()
         if self._replication == None:
             raise DSOLError("no replication details")
